@@ -107,10 +107,15 @@ def main():
         relevant_fail = []
         for f in r["failures"]:
             fprops = [p for p in re.split(r"[ ,]+", f.get("props", "")) if p]
+            # an assertion message that starts with a property id ("C06-U1 ...") belongs to that property only
+            mt = re.match(r'^"?(C\d\d)-', f.get("expr", ""))
+            if mt:
+                fprops = [mt.group(1)]
             if fprops and prop not in fprops:
                 continue  # obligation belongs to another property's contract set
             relevant_fail.append(f)
-        n_obl = r.get("obligations", r["verified"] + r["errors"])
+        # obligations that belong to another property's contract set are not part of this claim
+        n_obl = r.get("obligations", r["verified"] + r["errors"]) - (len(r["failures"]) - len(relevant_fail))
         n_dis = r.get("discharged", r["verified"])
         for bl in r.get("bounded_list", []):
             bounded.append(f"[{r['unit']}] {bl}")
